@@ -926,14 +926,24 @@ def rand_xf(rng, t_ifaces=40, near_axis=0.4):
     return x or None
 
 
-def small_tissue_spec(rng, pts_choices, moebius=None, subset_p=0.6, voronoi_p=0.25):
+def pick_fit(rng, ts, keep=0.15):
+    """taubinSVD on exactly collinear multi-point interfaces yields non-finite coefficients (reported once per check):
+    only a fraction `keep` of those combinations is generated"""
+    fit = str(rng.choice(["dlite", "taubinSVD"]))
+    if (fit == "taubinSVD" and ts.get("moebius") is None and ts.get("noise") is None and (ts.get("pts") or 0) >= 1
+            and rng.random() >= keep):
+        fit = "dlite"
+    return fit
+
+
+def small_tissue_spec(rng, pts_choices, moebius=None, subset_p=0.6, voronoi_p=0.25, vor_subset_p=0.8):
     """random small tissue: a base tissue (whole or a connected subset) or a random subset of a Voronoi tissue"""
     if rng.random() < voronoi_p:
         n = int(rng.choice([25, 40]))
         seed = int(rng.integers(40))
         ts = dict(base="voronoi", n=n, seed=seed)
         t = gen.voronoi_tissue(n, seed, pts=0)
-        if rng.random() < 0.8 and len(t.cells) > 5:
+        if rng.random() < vor_subset_p and len(t.cells) > 5:
             size = int(rng.integers(4, min(len(t.cells), 16) + 1))
             ts["subset"] = [int(c) for c in gen.random_connected_subset(t, size, int(rng.integers(1 << 30)), holes=int(rng.integers(0, 2)))]
     else:
@@ -951,7 +961,7 @@ def small_tissue_spec(rng, pts_choices, moebius=None, subset_p=0.6, voronoi_p=0.
 
 def cases_b02(tier, seed):
     rng = np.random.default_rng(seed + 202)
-    n_arc, n_str, n_lat = (330, 200, 110) if tier == "quick" else (7000, 4000, 2000)
+    n_arc, n_str, n_lat = (800, 450, 250) if tier == "quick" else (22000, 12000, 6000)
     out = []
     for _ in range(n_arc):
         ts = small_tissue_spec(rng, list(range(0, 16)), moebius=float(rng.choice([0.05, 0.2, 0.4, 0.6, 0.8, 0.95])))
@@ -960,7 +970,7 @@ def cases_b02(tier, seed):
     for _ in range(n_str):
         ts = small_tissue_spec(rng, [0, 0, 0, 1, 2, 3, 5, 8, 15])
         ts["xf"] = rand_xf(rng)
-        out.append(dict(check="B02", tissue=ts, fit=str(rng.choice(["dlite", "taubinSVD"])), ign=bool(rng.random() < 0.3)))
+        out.append(dict(check="B02", tissue=ts, fit=pick_fit(rng, ts, 0.3), ign=bool(rng.random() < 0.3)))
     for _ in range(n_lat):
         kind = str(rng.choice(["square", "brick", "hex"]))
         ts = dict(base="lattice", kind=kind, nx=int(rng.integers(3, 5)), ny=int(rng.integers(3, 5)), seed=0,
@@ -974,13 +984,13 @@ def cases_b02(tier, seed):
             ts["xf"] = dict(angle=float(rng.integers(0, 4)) * math.pi / 2 + float(rng.choice([1e-9, 1e-4, 2e-3]) * rng.choice([-1, 1])))
         else:
             ts["xf"] = dict(angle=float(rng.uniform(0, 2 * math.pi)), reflect=bool(rng.random() < 0.5))
-        out.append(dict(check="B02", tissue=ts, fit=str(rng.choice(["dlite", "taubinSVD"])), ign=bool(rng.random() < 0.5)))
+        out.append(dict(check="B02", tissue=ts, fit=pick_fit(rng, ts, 0.3), ign=bool(rng.random() < 0.5)))
     return out
 
 
 def cases_b01(tier, seed):
     rng = np.random.default_rng(seed + 101)
-    n = 420 if tier == "quick" else 9000
+    n = 1000 if tier == "quick" else 25000
     out = []
     methods = [None, "lsq_linear", "lsq"]
     for i in range(n):
@@ -994,13 +1004,13 @@ def cases_b01(tier, seed):
         ts["xf"] = rand_xf(rng, near_axis=0.15)
         mesh = int(rng.integers(2, 13)) if (ts["pts"] >= 2 and rng.random() < 0.3) else None
         m = methods[int(rng.choice([0, 0, 1, 2]))]
-        out.append(dict(check="B01", tissue=ts, fit=str(rng.choice(["dlite", "taubinSVD"])), method=m, mesh=mesh))
+        out.append(dict(check="B01", tissue=ts, fit=pick_fit(rng, ts), method=m, mesh=mesh))
     return out
 
 
 def cases_b05(tier, seed):
     rng = np.random.default_rng(seed + 505)
-    n = 360 if tier == "quick" else 8000
+    n = 900 if tier == "quick" else 22000
     out = [dict(check="B05", tissue=dict(base="flower", seed=0, pts=0), fit="dlite", method="fix_stress"),
            dict(check="B05", tissue=dict(base="hex_patch", seed=1, pts=3, moebius=0.6, mseed=2, noise=dict(sigma=0.05, seed=3)),
                 fit="dlite", method="fix_stress")]
@@ -1020,13 +1030,13 @@ def cases_b05(tier, seed):
         if rng.random() < 0.3:
             ts["xf"] = dict(angle=float(rng.uniform(0, 6.28)), scale=float(10 ** rng.uniform(-3, 3)),
                             shift_rel=[float(v) for v in rng.uniform(-5, 5, 2)])
-        out.append(dict(check="B05", tissue=ts, fit=str(rng.choice(["dlite", "taubinSVD"])), method=m))
+        out.append(dict(check="B05", tissue=ts, fit=pick_fit(rng, ts), method=m))
     return out
 
 
 def cases_b16(tier, seed):
     rng = np.random.default_rng(seed + 1616)
-    n = 300 if tier == "quick" else 6000
+    n = 700 if tier == "quick" else 16000
     out = []
     for i in range(n):
         curved = rng.random() < 0.5
@@ -1040,7 +1050,7 @@ def cases_b16(tier, seed):
         limit = "default" if u < 0.1 else (math.pi if u < 0.15 else
                                            float(rng.uniform(0.5 * math.pi, 0.667 * math.pi) if u < 0.25 else rng.uniform(0.667 * math.pi, math.pi)))
         m = "lsq" if rng.random() < 0.12 else None
-        out.append(dict(check="B16", tissue=ts, fit=str(rng.choice(["dlite", "taubinSVD"])), method=m, limit=limit))
+        out.append(dict(check="B16", tissue=ts, fit=pick_fit(rng, ts), method=m, limit=limit))
     return out
 
 
